@@ -411,6 +411,53 @@ func genC07(rng *hx.Rng, tier string, w *hx.Writer) error {
 			w.Put(hx.Case{Entry: "-", Op: 0, Args: hx.L(hx.Zi(cut), hx.Zi(len(doc)), hx.B([]byte(csel))), Impl: implC, Oracle: oracleC, Tags: []string{"query-transfer-cut", "nt"}})
 		}
 	}
+	// (5a) a query result held at the stage level: query 1 (empty selector: the fetched bytes are the
+	// result) has fetched its document and waits for its submitter while query 2 runs to the end
+	for it := 0; it < 4*scale; it++ {
+		d1 := []byte(`{"big":` + genJSON(rng, 4) + `,"pad":"` + strings.Repeat("x", 3000+rng.Intn(9000)) + `"}`)
+		d2 := []byte(`{"small":` + genJSON(rng, 1) + `}`)
+		p1, p2 := fmt.Sprintf("/h1-%d", it), fmt.Sprintf("/h2-%d", it)
+		docMu.Lock()
+		docs[p1], docs[p2] = d1, d2
+		docMu.Unlock()
+		sub1, sub2 := rng.Bytes(20), rng.Bytes(20)
+		res := hx.Catch(func() string {
+			ctx, cancel := context.WithTimeout(context.Background(), 5*time.Second)
+			defer cancel()
+			sc1 := make(chan []byte, 1)
+			out1, errc1 := dosnode.VerifGenQueryResult(ctx, sc1, srv.URL+p1, "", c07Log)
+			go func() {
+				for range errc1 {
+				}
+			}()
+			time.Sleep(40 * time.Millisecond)
+			sc2 := make(chan []byte, 1)
+			sc2 <- sub2
+			out2, errc2 := dosnode.VerifGenQueryResult(ctx, sc2, srv.URL+p2, "", c07Log)
+			go func() {
+				for range errc2 {
+				}
+			}()
+			v2, ok2 := readAll(out2, 5*time.Second)
+			sc1 <- sub1
+			v1, ok1 := readAll(out1, 5*time.Second)
+			if !ok1 || !ok2 {
+				return hx.E
+			}
+			if !bytes.Equal(v1, append(append([]byte{}, d1...), sub1...)) {
+				return "z1"
+			}
+			if !bytes.Equal(v2, append(append([]byte{}, d2...), sub2...)) {
+				return "z2"
+			}
+			return "z0"
+		})
+		oracle := "ok"
+		if res != "z0" {
+			oracle = hx.Fail("query-content-wrong", "a query that had fetched its document and waited for its submitter while another query ran produced a string that is not its own document || submitter ("+res+")")
+		}
+		w.Put(hx.Case{Entry: "-", Op: 0, Args: hx.L(hx.Zi(len(d1)), hx.Zi(len(d2))), Impl: res, Oracle: oracle, Tags: []string{"query-held", "nt"}})
+	}
 	// (5b) results HELD while further documents are evaluated (a member keeps the extracted bytes as
 	// the content it signs and sends while the next requests are already being parsed), sequentially
 	// and from several goroutines: what was extracted stays what it was
@@ -488,6 +535,9 @@ func genC07(rng *hx.Rng, tier string, w *hx.Writer) error {
 		seed := c07Rand(rng)
 		if rng.Chance(15) {
 			reqID = big.NewInt(0)
+		}
+		if it%5 == 2 {
+			lastRand = big.NewInt(0) // what the node's own query-test endpoint injects
 		}
 		pType := uint32(onchain.TrafficSystemRandom)
 		if rng.Bool() {
@@ -568,8 +618,24 @@ func genC07(rng *hx.Rng, tier string, w *hx.Writer) error {
 				oracle = hx.Fail("member-content-differs", fmt.Sprintf("member %d signs / addresses something other than the fixed function of the event (submitter index %d)", m, idx))
 			}
 		}
+		// the chain-event loop hands the SAME last-randomness object to the commit-reveal handler as its
+		// seed (onchainLoop: randSeed = content.LastRandomness ... go d.handleCR(content, randSeed))
+		crPanic := hx.Catch(func() string {
+			node := dosnode.VerifNewNode(doubles.NewFakeP2P(ids[0]), &doubles.FakeChain{BlockTime: 1}, nil, ids[0], c07Log, 21)
+			started := make(chan struct{})
+			go func() {
+				defer func() { recover() }()
+				close(started)
+				node.VerifHandleCR(&onchain.LogStartCommitReveal{Cid: big.NewInt(int64(it + 1)), StartBlock: big.NewInt(0),
+					CommitDuration: big.NewInt(0), RevealDuration: big.NewInt(0), RevealThreshold: big.NewInt(1)}, lastRand)
+			}()
+			<-started
+			time.Sleep(15 * time.Millisecond)
+			return "z0"
+		})
+		_ = crPanic
 		if lastRand.Cmp(r0) != 0 || reqID.Cmp(id0) != 0 || seed.Cmp(s0) != 0 {
-			oracle = hx.Fail("event-mutated", "handling the request modified the event's numbers")
+			oracle = hx.Fail("event-mutated", "handling the request (or the commit-reveal round seeded with its last randomness) modified the event's numbers")
 		}
 		// what the model is compared with: the content the first evaluated member signed
 		first := ""
